@@ -79,11 +79,16 @@ def random_mol_pair(rng, max_nodes=6, same_nodes=True):
     n = rng.randint(1, max_nodes)
     ids = rng.sample(range(1, 30), n)
     G, H = nx.Graph(), nx.Graph()
+    spectators = rng.random() < 0.5      # atoms whose labels do not change (pi-bond shifts, spectator fragments)
     for i in ids:
         el = rng.choice(ELEMS)
-        G.add_node(i, **mol_node(el, rng.randint(0, 3), rng.choice([0, 0, 1, -1]), rng.random() < 0.2, i))
+        g_attrs = mol_node(el, rng.randint(0, 3), rng.choice([0, 0, 1, -1]), rng.random() < 0.2, i)
+        G.add_node(i, **g_attrs)
         if same_nodes or rng.random() < 0.8:
-            H.add_node(i, **mol_node(el, rng.randint(0, 3), rng.choice([0, 0, 1, -1]), rng.random() < 0.2, i))
+            if spectators and rng.random() < 0.8:
+                H.add_node(i, **dict(g_attrs, neighbors=[]))
+            else:
+                H.add_node(i, **mol_node(el, rng.randint(0, 3), rng.choice([0, 0, 1, -1]), rng.random() < 0.2, i))
     for X in (G, H):
         nodes = list(X.nodes)
         for a, b in itertools.combinations(nodes, 2):
@@ -92,7 +97,7 @@ def random_mol_pair(rng, max_nodes=6, same_nodes=True):
     return G, H
 
 
-def all_small_mol_pairs(n, elems=("C", "O"), orders=(1, 2)):
+def all_small_mol_pairs(n, elems=("C", "O"), orders=(1, 2), same_labels=False):
     ids = list(range(1, n + 1))
     pairs = list(itertools.combinations(range(n), 2))
     for els in itertools.product(elems, repeat=n):
@@ -101,7 +106,7 @@ def all_small_mol_pairs(n, elems=("C", "O"), orders=(1, 2)):
                 G, H = nx.Graph(), nx.Graph()
                 for i, el in zip(ids, els):
                     G.add_node(i, **mol_node(el, 1, 0, False, i))
-                    H.add_node(i, **mol_node(el, 0, 0, False, i))
+                    H.add_node(i, **mol_node(el, 1 if same_labels else 0, 0, False, i))
                 for (a, b), o in zip(pairs, lg):
                     if o is not None:
                         G.add_edge(ids[a], ids[b], order=o)
